@@ -166,19 +166,23 @@ func fold(r *ev.Run, st *concStats) {
 	}
 }
 
-// runConcurrentPart runs sub-monitor (d): in the -race child when there is
-// one, otherwise in this process (value and history checks only).
-func runConcurrentPart(r *ev.Run) {
+// inProcess runs sub-monitor (d) in this process: value and history checks,
+// no race detector.
+func inProcess(r *ev.Run, why string) {
+	r.Count("race_subworkload_skipped", 1)
+	r.Set("race_subworkload", "skipped: "+why+"; the concurrent workload ran in this process without the race detector")
+	st := newConcStats()
+	sc, reps := concSizes(r)
+	concurrentWorkload(r.Rand("conc"), sc, reps, st)
+	fold(r, st)
+}
+
+// runConcurrentPart runs sub-monitor (d) in the -race child. It returns a
+// reason when there is no usable child; the caller then runs it in process.
+func runConcurrentPart(r *ev.Run) (fallback string) {
 	bin := findRaceBinary()
 	if bin == "" {
-		why := "no usable -race binary ($VERIF_BUILD/vcheck-race or dev18-race missing or older than the sources)"
-		r.Count("race_subworkload_skipped", 1)
-		r.Set("race_subworkload", "skipped: "+why+"; the concurrent workload ran in this process without the race detector")
-		st := newConcStats()
-		sc, reps := concSizes(r)
-		concurrentWorkload(r.Rand("conc"), sc, reps, st)
-		fold(r, st)
-		return
+		return "no usable -race binary ($VERIF_BUILD/vcheck-race or dev18-race missing or older than the sources)"
 	}
 	args := []string{r.Tier}
 	if strings.HasPrefix(filepath.Base(bin), "vcheck") {
@@ -192,7 +196,7 @@ func runConcurrentPart(r *ev.Run) {
 	os.RemoveAll(dir)
 	if err := os.MkdirAll(dir, 0o755); err != nil {
 		r.Inconclusive("race log dir: " + err.Error())
-		return
+		return ""
 	}
 	defer os.RemoveAll(dir)
 	// Outer watchdog only; its firing is inconclusive.
@@ -212,7 +216,7 @@ func runConcurrentPart(r *ev.Run) {
 	text := string(out)
 	if ctx.Err() != nil {
 		r.Inconclusive("race child: watchdog fired")
-		return
+		return ""
 	}
 	ran := false
 	for _, line := range strings.Split(text, "\n") {
@@ -236,16 +240,10 @@ func runConcurrentPart(r *ev.Run) {
 		r.Violation("C18:race:concurrent-map-access", "runtime fatal error in the race child: unsynchronised map access while goroutines share one APIClient", tail(text, 3000))
 	case err != nil && !ran:
 		if strings.Contains(text, "unknown property") {
-			r.Count("race_subworkload_skipped", 1)
-			r.Set("race_subworkload", "skipped: "+bin+" does not contain C18")
-			st := newConcStats()
-			sc, reps := concSizes(r)
-			concurrentWorkload(r.Rand("conc"), sc, reps, st)
-			fold(r, st)
-			return
+			return bin + " does not contain C18"
 		}
 		r.Inconclusive(fmt.Sprintf("race child %s failed: %v: %s", bin, err, tail(text, 600)))
-		return
+		return ""
 	}
 	blocks := parseRaceLogs(dir)
 	seen := map[string]bool{}
@@ -269,6 +267,7 @@ func runConcurrentPart(r *ev.Run) {
 	r.Count("race_reports_total", int64(len(blocks)))
 	r.Count("race_child_ran", 1)
 	r.Set("race_subworkload", fmt.Sprintf("ran in %s: %d reports (%d distinct in deps.dev/ code)", filepath.Base(bin), len(blocks), len(seen)))
+	return ""
 }
 
 func uniqSorted(s []string) []string {
